@@ -29,6 +29,16 @@ func keyCmp(name string) func(a, b Key) int {
 			}
 			return 0
 		}
+	case "big":
+		return func(a, b Key) int {
+			switch {
+			case a.C < b.C:
+				return -4_000_000_000
+			case a.C > b.C:
+				return 4_000_000_000
+			}
+			return 0
+		}
 	case "ext": // natural order, EXTREME magnitudes: math.MinInt / 0 / math.MaxInt (negating MinInt overflows)
 		return func(a, b Key) int {
 			switch {
@@ -73,6 +83,16 @@ func intCmp(name string) func(a, b int) int {
 				return math.MinInt
 			case a > b:
 				return math.MaxInt
+			}
+			return 0
+		}
+	case "big": // natural order, magnitude 4e9: the PRODUCT of two results overflows int64 (and changes sign)
+		return func(a, b int) int {
+			switch {
+			case a < b:
+				return -4_000_000_000
+			case a > b:
+				return 4_000_000_000
 			}
 			return 0
 		}
@@ -273,8 +293,10 @@ func kvTreeJobs(prop string, q bool, add func(kind, id string, w int, s map[stri
 	}
 	// comparators that answer math.MinInt / 0 / math.MaxInt: a valid order whose results cannot be negated
 	for _, t := range []tb{{"rbt", 0, pick(9, 11)}, {"avl", 0, pick(9, 11)}, {"treemap", 0, pick(8, 10)}, {"treeset", 0, pick(8, 10)}, {"btree", 3, pick(11, 14)}, {"btree", 4, pick(11, 14)}} {
-		id := fmt.Sprintf("%s%s.ext.n%d", t.c, map[bool]string{true: fmt.Sprint(t.m), false: ""}[t.m > 0], t.n)
-		add("kv", id, t.n*t.n, map[string]string{"c": t.c, "cmp": "ext"}, map[string]int{"m": t.m, "n": t.n, "rank": 1})
+		for _, cm := range []string{"ext", "big"} {
+			id := fmt.Sprintf("%s%s.%s.n%d", t.c, map[bool]string{true: fmt.Sprint(t.m), false: ""}[t.m > 0], cm, t.n)
+			add("kv", id, t.n*t.n, map[string]string{"c": t.c, "cmp": cm}, map[string]int{"m": t.m, "n": t.n, "rank": 1})
+		}
 	}
 	for _, t := range trees {
 		for _, c := range []string{"nat", "rev", "coarse"} {
